@@ -272,6 +272,7 @@ func (f *frame) execBlock(b *ssa.BasicBlock, st0 *State, reach0 Term) {
 		if _, ok := ins.(*ssa.Phi); ok {
 			continue
 		}
+		u.curReach = f.curReach
 		f.execInstr(ins)
 		if f.curReach.S == "false" {
 			break
@@ -499,7 +500,18 @@ func (f *frame) execInstr(ins ssa.Instruction) {
 	case *ssa.TypeAssert:
 		f.vals[ins] = f.typeAssert(ins)
 	case *ssa.ChangeInterface:
-		f.vals[ins] = f.value(ins.X)
+		xv := f.value(ins.X)
+		if xt, ok := xv.(Term); ok {
+			ts := u.tc.sortOf(ins.Type())
+			if xt.T.K == KErr && ts.K == KIface {
+				// an error value seen as a general interface: one tag for all error implementations
+				tag := u.eng.typeTagByKey("error-value")
+				xv = u.define(f.key+"_"+ins.Name(), Term{fmt.Sprintf("(ite (= %s 0) (mk-iface 0 0 (_ bv0 64)) (mk-iface %d %s (_ bv0 64)))", xt.S, tag, xt.S), ts})
+			} else if xt.T.K == KIface && ts.K == KErr {
+				f.bad("conversion of a general interface value to error")
+			}
+		}
+		f.vals[ins] = xv
 	case *ssa.Lookup:
 		f.vals[ins] = f.lookup(ins)
 	case *ssa.If:
@@ -610,6 +622,9 @@ func (u *Unit) toInt(t Term) Term {
 	case KInt:
 		return t
 	case KBV:
+		if in, ok := u.zextOf[t.S]; ok {
+			return u.toInt(in)
+		}
 		if strings.HasPrefix(t.S, "(_ bv") {
 			parts := strings.Fields(strings.Trim(t.S, "()"))
 			vv, _ := new(big.Int).SetString(strings.TrimPrefix(parts[1], "bv"), 10)
@@ -617,6 +632,10 @@ func (u *Unit) toInt(t Term) Term {
 				vv.Sub(vv, new(big.Int).Lsh(big.NewInt(1), uint(t.T.W)))
 			}
 			return intConst(vv)
+		}
+		if os.Getenv("GOVC_NORANGE") == "" {
+			// the range of a conversion is a theory fact the solvers are slow to find
+			u.bridgeFact(fmt.Sprintf("(and (<= 0 (bv2nat %[1]s)) (< (bv2nat %[1]s) %[2]s))", t.S, new(big.Int).Lsh(big.NewInt(1), uint(t.T.W)).String()))
 		}
 		if os.Getenv("GOVC_BRIDGE2") != "" {
 			u.bridgeFact(fmt.Sprintf("(and (<= 0 (bv2nat %[1]s)) (< (bv2nat %[1]s) %[2]s) (= ((_ int2bv %[3]d) (bv2nat %[1]s)) %[1]s))", t.S, new(big.Int).Lsh(big.NewInt(1), uint(t.T.W)).String(), t.T.W))
@@ -760,7 +779,7 @@ func (u *Unit) assumeLive(st *State, v Term) {
 	case KRef:
 		u.assume(and(le(Term{"0", sInt}, v), lt(v, u.nextRef(st))))
 	case KIface:
-		u.assume(Term{"(and (<= 0 (i-tag " + v.S + ")) (<= 0 (i-val " + v.S + ")) (< (i-val " + v.S + ") " + u.nextRef(st).S + "))", sBool})
+		u.assume(Term{"(and (<= 0 (i-tag " + v.S + ")) (<= 0 (i-val " + v.S + ")) (< (i-val " + v.S + ") " + u.nextRef(st).S + ") (=> (= (i-tag " + v.S + ") 0) (= (i-val " + v.S + ") 0)))", sBool})
 	}
 }
 
@@ -953,7 +972,16 @@ func (f *frame) convert(ins *ssa.Convert) Val {
 	ts := u.tc.sortOf(ins.Type())
 	switch {
 	case ts.K == KBV && (x.T.K == KBV || x.T.K == KInt):
-		return u.define(f.key+"_"+ins.Name(), u.toBV(x, ts))
+		r := u.define(f.key+"_"+ins.Name(), u.toBV(x, ts))
+		if x.T.K == KBV && !x.T.Signed && x.T.W < ts.W {
+			// a zero extension has the value of its operand: remember it so that a later conversion to a
+			// mathematical integer is taken of the narrow operand (no facts about bv2nat are needed then)
+			if u.zextOf == nil {
+				u.zextOf = map[string]Term{}
+			}
+			u.zextOf[r.S] = x
+		}
+		return r
 	case ts.K == KInt && x.T.K == KBV:
 		t := u.toInt(x)
 		t.T = ts
